@@ -9,6 +9,10 @@
 //          sum_s get_subset_sensitivity(s) == get_sensitivity(), with use_subset_sensitivities on AND off (>= 2 subsets), directly after
 //          set_up, after the value/gradient/Hessian requests of every E case, and in EVERY state of the H search (after set_up and after
 //          each request of each order)
+// R part : (re-set-up histories, run with the E oracles) build the object for a PREVIOUS configuration, set_up, optionally use it (value,
+//          gradient, gradient+sensitivity, Hessian product, sensitivities), optionally call ONE setter that requires a new set_up (additive
+//          term, normalisation, zero_seg0_end_planes, max_segment_num_to_process, num_subsets, use_subset_sensitivities; every other legal
+//          previous value), set_up the SAME object again, then every E comparison for the CURRENT configuration as for a fresh object
 #include "vmc.h"
 #include "stir_small.h"
 #include "stir/recon_buildblock/PoissonLogLikelihoodWithLinearModelForMeanAndProjData.h"
@@ -162,6 +166,9 @@ struct Cfg
 };
 const char* ADDN[] = { "none", "const", "labelled" };
 const char* NORMN[] = { "default", "trivial", "projdata", "chained", "projdataTOF" };
+// R part: what is changed between the first and the second set_up of the same object
+enum { RS_NONE = 0, RS_ADD, RS_NORM, RS_ZERO, RS_MSEG, RS_NS, RS_USUB, NRS };
+const char* RSN[] = { "none", "additive", "normalisation", "zero_seg0_end_planes", "max_segment_num_to_process", "num_subsets", "use_subset_sensitivities" };
 
 // float-exact factor / additive / data alphabets
 inline float factor1(int i) { return 0.5F + 3.5F * float(i % 251) / 251.F; } // normalisation factors (1/efficiency) in [0.5,4)
@@ -522,6 +529,10 @@ struct ERun
   long only_img = -1, only_dat = -1, only_vec = -1; // replay restriction
   std::vector<double> totref_, totT_;               // reference total sensitivity of the current data set (set by run_data)
   bool total_ok_after_set_up_ = true, sum_ok_after_set_up_ = true;
+  // R part: history "previous configuration -> set_up -> [requests] -> [setter] -> set_up"; rs < 0: fresh object (E part)
+  int rs = -1, pv = 0, used = 0;
+  bool hist() const { return rs >= 0; }
+  std::string hs() const { return hist() ? ";rs=" + std::to_string(rs) + ";pv=" + std::to_string(pv) + ";used=" + std::to_string(used) : std::string(); }
 
   ERun(vmc::Ctx& ctx_, const World& w_, const Cfg& c_) : ctx(ctx_), w(w_), c(c_), m(make_model(w_, c_)), cs(c_.str()) {}
 
@@ -535,11 +546,12 @@ struct ERun
     if (!is_prior && !is_hess && !is_acc) o << ";norm=" << NORMN[c.norm];
     if (!is_prior && !is_acc) o << ";zero_end_planes=" << c.zero;
     if (!extra.empty()) o << ";" << extra;
+    if (hist()) o << ";history=second_set_up;setter=" << RSN[rs];
     return o.str();
   }
   std::string kase(int dat, int img, const std::string& extra = "") const
   {
-    return cs + ";dat=" + std::to_string(dat) + ";img=" + std::to_string(img) + (extra.empty() ? "" : ";" + extra);
+    return cs + hs() + ";dat=" + std::to_string(dat) + ";img=" + std::to_string(img) + (extra.empty() ? "" : ";" + extra);
   }
   bool check(const std::string& clause, const std::string& kase_, const std::vector<double>& impl, const std::vector<double>& ref,
              const std::vector<double>& T, const std::string& keyextra = "", double extra = 2 * SMALLNUM)
@@ -582,7 +594,8 @@ struct ERun
       }
     if (m.subsets_not_view_mod_ns) ctx.count("configs_where_subset_is_not_view_mod_num_subsets");
     std::vector<int> dats = { 0, 1, 2 };
-    if (ctx.thorough() && c.geo == 0 && c.sym == 0 && c.ns == 1)
+    if (hist()) dats = { 2 };
+    else if (ctx.thorough() && c.geo == 0 && c.sym == 0 && c.ns == 1)
       for (int k = 0; k < w.nb; ++k) dats.push_back(3 + k);
     if (only_dat >= 0) dats = { (int)only_dat };
     for (int dat : dats) run_data(dat);
@@ -592,12 +605,97 @@ struct ERun
   {
     const std::vector<double> yraw = data_by_id(w, m, dat);
     Ref ref(w, c, m, yraw);
-    Built b = build(w, c, m, yraw, true);
-    b.obj->set_recompute_sensitivity(true);
     std::string what;
     bool failed = false;
+    Built b;
+    if (!hist())
+      {
+        b = build(w, c, m, yraw, true);
+        b.obj->set_recompute_sensitivity(true);
+      }
+    else
+      {
+        // previous configuration: the current one with one field replaced by pv
+        Cfg c0 = c;
+        switch (rs)
+          {
+          case RS_ADD: c0.add = pv; break;
+          case RS_NORM: c0.norm = pv; break;
+          case RS_ZERO: c0.zero = pv; break;
+          case RS_MSEG: c0.mseg = pv; break;
+          case RS_NS: c0.ns = pv; break;
+          case RS_USUB: c0.usub = pv; break;
+          default: break;
+          }
+        const Model m0 = make_model(w, c0);
+        b = build(w, c0, m0, yraw, true);
+        b.obj->set_recompute_sensitivity(true);
+        ctx.count("transitions");
+        if (small::throws([&] { failed = b.obj->set_up(w.im) != Succeeded::yes; }, &what) || failed)
+          {
+            ctx.count("rejected_configs_first_set_up");
+            ctx.digest("rejected1:" + what);
+            return;
+          }
+        if (used)
+          {
+            // use the object as set up for the previous configuration (results are the subject of the E part, not compared here)
+            shared_ptr<Vox> est = to_image(w, image_by_id(w, 1)), vin = to_image(w, vec_by_id(w, 1));
+            shared_ptr<Target> o2(w.im->get_empty_copy());
+            if (small::throws([&] {
+                  for (int S = 0; S < c0.ns; ++S)
+                    {
+                      b.obj->compute_objective_function_without_penalty(*est, S);
+                      b.obj->compute_sub_gradient_without_penalty(*o2, *est, S);
+                      b.obj->compute_sub_gradient_without_penalty_plus_sensitivity(*o2, *est, S);
+                      b.obj->accumulate_sub_Hessian_times_input_without_penalty(*o2, *est, *vin, S);
+                      (void)b.obj->get_subset_sensitivity(S);
+                      ctx.count("transitions", 5);
+                    }
+                  (void)b.obj->get_sensitivity(); }, &what))
+              {
+                ctx.count("requests_before_second_set_up_threw");
+                ctx.observe("R part: requests on the previous configuration threw: " + what.substr(0, 160));
+              }
+          }
+        // one setter (none for RS_NONE) that requires a new set_up
+        switch (rs)
+          {
+          case RS_ADD:
+            if (c.add != 0) { b.add = projdata_from(w.pdi, m.a_raw); b.obj->set_additive_proj_data_sptr(b.add); }
+            else { b.add.reset(); b.obj->set_additive_proj_data_sptr(shared_ptr<ExamData>()); } // back to the default: no additive term
+            break;
+          case RS_NORM:
+            {
+              shared_ptr<BinNormalisation> norm = make_norm(w, c);
+              if (!norm) norm.reset(new TrivialBinNormalisation); // what the default is
+              b.obj->set_normalisation_sptr(norm);
+              break;
+            }
+          case RS_ZERO: b.obj->set_zero_seg0_end_planes(c.zero != 0); break;
+          case RS_MSEG: b.obj->set_max_segment_num_to_process(c.mseg); break;
+          case RS_NS: b.obj->set_num_subsets(c.ns); break;
+          case RS_USUB: b.obj->set_use_subset_sensitivities(c.usub != 0); break;
+          default: break;
+          }
+        if (rs != RS_NONE) ctx.count("transitions");
+        ctx.count("transitions");
+        ctx.count("re_set_up_histories");
+        ctx.count(std::string("re_set_up_histories_setter_") + RSN[rs]);
+      }
     if (small::throws([&] { failed = b.obj->set_up(w.im) != Succeeded::yes; }, &what) || failed)
       {
+        if (hist())
+          {
+            // the first set_up of the neighbouring configuration succeeded; a fresh object with the current configuration decides whether
+            // the current configuration is one STIR rejects (then not a failure) or whether only the re-used object fails
+            Built f = build(w, c, m, yraw, true);
+            f.obj->set_recompute_sensitivity(true);
+            bool ffailed = false; std::string fwhat;
+            if (!(small::throws([&] { ffailed = f.obj->set_up(w.im) != Succeeded::yes; }, &fwhat) || ffailed))
+              ctx.violation(key("second_set_up", "kind=" + std::string(what.empty() ? "returned_no" : "exception")), kase(dat, 0),
+                            "second set_up of the same object failed ('" + what.substr(0, 200) + "') although a fresh object with the same configuration sets up");
+          }
         ctx.count("rejected_configs");
         ctx.digest("rejected:" + what);
         return;
@@ -640,7 +738,7 @@ struct ERun
             }
         }
       if (sens_ok) check("sum_over_subsets;q=sensitivity", k0, tot, totref, totT, "usub=" + std::to_string(c.usub));
-      ctx.nontrivial(cs + ";sens");
+      ctx.nontrivial(cs + hs() + ";sens");
       totref_ = totref; totT_ = totT;
       // the accessors against each other (reported whether or not the comparisons with the formulas passed)
       check_accessors(b, k0, false);
@@ -655,6 +753,7 @@ struct ERun
         for (int k = 0; k < 3; ++k)
           if (k == 2 || (th && (k == 0 || c.geo == 0))) imgs.push_back(2 + 3 * j + k);
     }
+    if (hist()) imgs = { 1, 2 + 3 * (w.nvox / 2) + 2 }; // labelled image; uniform with the central voxel doubled
     if (only_img >= 0) imgs = { (int)only_img };
     for (int img : imgs)
       {
@@ -770,7 +869,7 @@ struct ERun
     }
     // ---- Hessian x v and approximate Hessian x v
     std::vector<int> vecs = { 0, 1 };
-    if (img <= 1)
+    if (img <= 1 && !hist())
       {
         const bool th = ctx.thorough();
         const int step = c.geo == 0 ? (th ? 1 : 6) : (th ? 11 : 61);
@@ -1219,7 +1318,13 @@ int main(int argc, char** argv)
              "distinct = distinct (configuration,data,image) strings. H: every order of first use x sensitivity supply x poison, with "
              "use_subset_sensitivities off as well as on when the sensitivity is recomputed with >= 2 subsets. Accessor invariants "
              "(get_sensitivity() == P^T n 1; sum_s get_subset_sensitivity(s) == get_sensitivity()) are evaluated after set_up and after the "
-             "requests of every E case and in every state (after set_up and after each request) of every H order";
+             "requests of every E case and in every state (after set_up and after each request) of every H order. "
+             "R: re-set-up histories (same space in both tiers): object built for a previous configuration -> set_up -> [use: value, gradient, "
+             "gradient+sensitivity, Hessian product, sensitivities of every subset] -> [one setter: additive term / normalisation / "
+             "zero_seg0_end_planes / max_segment_num_to_process / num_subsets / use_subset_sensitivities, from every other legal previous value] -> "
+             "second set_up of the SAME object, then all E comparisons (sensitivities, accessors, value, gradient, gradient+sensitivity, Hessian "
+             "products, prior share, sums over subsets) against the formulas for the CURRENT configuration; a history is distinct by "
+             "(configuration, setter, previous value, used)";
   ctx.assume("tolerance: |impl-ref| <= (64*eps_float + 2e-6)*sum|terms| per element, reference in double on the explicit matrix P "
              "(rows of ProjMatrixByBinUsingRayTracing with all symmetries off, z clipped to the image)");
   ctx.assume("2e-6 share: divide_and_truncate/accumulate_loglikelihood treat numerators <= 1e-6*max(viewgram) as zero");
@@ -1243,6 +1348,7 @@ int main(int argc, char** argv)
         }
       auto w = world(c.geo, c.sym);
       ERun r(ctx, *w, c);
+      if (m.count("rs")) { r.rs = atoi(m["rs"].c_str()); r.pv = atoi(m["pv"].c_str()); r.used = atoi(m["used"].c_str()); }
       if (m.count("dat")) r.only_dat = atol(m["dat"].c_str());
       if (m.count("img")) r.only_img = atol(m["img"].c_str());
       if (m.count("v")) r.only_vec = atol(m["v"].c_str());
@@ -1289,6 +1395,57 @@ int main(int argc, char** argv)
                         ctx.count("configurations");
                       }
     }
+  // ---- R part: re-set-up histories; the same bounded space in both tiers. unit = (current configuration, setter, previous value, used)
+  {
+    std::vector<Cfg> targets;
+    for (int add : { 0, 2 })
+      for (int norm : { 0, 2 })
+        for (int zero = 0; zero < 2; ++zero)
+          for (int mseg = 0; mseg < 2; ++mseg)
+            for (int usub = 0; usub < 2; ++usub)
+              for (int ns : { 1, 2, 4 })
+                {
+                  Cfg c; c.geo = 0; c.sym = 0; c.add = add; c.norm = norm; c.zero = zero; c.mseg = mseg; c.usub = usub; c.ns = ns;
+                  targets.push_back(c);
+                }
+    for (int tofsens = 0; tofsens < 2; ++tofsens)
+      for (int norm : { 2, 4 })
+        {
+          Cfg c; c.geo = 2; c.sym = 1; c.add = 2; c.norm = norm; c.zero = 0; c.mseg = GEOS[2].maxd; c.usub = 1; c.ns = 2; c.tofsens = tofsens;
+          targets.push_back(c);
+        }
+    for (const Cfg& c : targets)
+      for (int rs = 0; rs < NRS; ++rs)
+        {
+          // every other legal value of the field as the previous one
+          std::vector<int> pvs;
+          const bool tofg = GEOS[c.geo].ntof != 0;
+          switch (rs)
+            {
+            case RS_NONE: pvs = { 0 }; break;
+            case RS_ADD: for (int v = 0; v < 3; ++v) if (v != c.add) pvs.push_back(v); break;
+            case RS_NORM: for (int v = 0; v < (tofg ? 5 : 4); ++v) if (v != c.norm) pvs.push_back(v); break;
+            case RS_ZERO: pvs = { 1 - c.zero }; break;
+            case RS_MSEG: for (int v = 0; v <= GEOS[c.geo].maxd; ++v) if (v != c.mseg) pvs.push_back(v); break;
+            case RS_NS: for (int v = 1; v <= max_views[c.geo]; ++v) if (v != c.ns) pvs.push_back(v); break;
+            case RS_USUB: pvs = { 1 - c.usub }; break;
+            }
+          for (int pv : pvs)
+            for (int used = 0; used < 2; ++used)
+              {
+                if (rs != RS_NONE && used == 0) continue; // a setter follows a period of use; the plain second set_up is run both ways
+                if (!ctx.mine(unit++)) continue;
+                if (ctx.expired()) goto done;
+                auto w = world(c.geo, c.sym);
+                const double t0 = ctx.elapsed();
+                ERun r(ctx, *w, c);
+                r.rs = rs; r.pv = pv; r.used = used;
+                r.run();
+                ctx.count(std::string("cpu_ms_R_") + GEOS[c.geo].name, (long long)((ctx.elapsed() - t0) * 1000));
+                ctx.count("re_set_up_units");
+              }
+        }
+  }
   // ---- H part: units = (configuration, sensitivity supply, poison pattern, matrix sharing, first request)
   {
     struct HC { int geo, sym, add, norm, ns, tofsens, mx, nreq0; };
